@@ -56,6 +56,12 @@ def generate(prop, rng, seed, index, tier):
     # start/stop history
     t = rng.choice([0, 0, 0.25, 1])
     started = False
+    if rng.random() < 0.2:
+        # Source(..., start=True): started by its constructor; the history goes on from there (a stop() may
+        # follow at once, before the loop has had a turn)
+        src['start_true'] = True
+        started = True
+        t = rng.choice([0, 0, 0, 0.25, 1])
     ncalls = rng.randrange(1, 8 if big else 6)
     for _ in range(ncalls):
         r = rng.random()
@@ -95,7 +101,7 @@ def mark_redundant(sc):
     a stopped one - in execution order; only for sources that never stop by
     themselves."""
     typ = sc['source']['type']
-    started = False
+    started = bool(sc['source'].get('start_true'))      # (constructed with start=True)
     for _, o in sorted(enumerate(sc['ops']), key=lambda p: (p[1]['t'], p[0])):
         o.pop('redundant', None)
         if o['op'] == 'start':
